@@ -292,8 +292,10 @@ class GlobalModelRepository:
                 if self.all_models.filename_to_model[fn] == model:
                     # print("UPDATED/CACHED {}".format(fn))
                     return fn
+            # invented names are stored as they are (`has_model` would look
+            # for the absolute path of the name and never find it)
             i = 0
-            while self.all_models.has_model(f"anonymous{i}"):
+            while f"anonymous{i}" in self.all_models.filename_to_model:
                 i += 1
             myfilename = f"anonymous{i}"
             self.all_models[myfilename] = model
